@@ -248,7 +248,35 @@ pub extern "C" fn on_alarm(_s: i32) {
                 }
             }
         }
-        holders.push(json!([pid, inos, what, ino, parent_holds_peer, others_hold_peer, peer_pids]));
+        // a writer whose readers are all gone lives on only if SIGPIPE cannot reach it: is the signal blocked or ignored
+        // in the child, and is its stdout a pipe that nobody (no child, not the parent) can read any more?
+        let st = fs::read_to_string(format!("/proc/{}/status", pid)).unwrap_or_default();
+        let bit = |name: &str| -> bool {
+            st.lines()
+                .find_map(|l| l.strip_prefix(name))
+                .and_then(|v| u64::from_str_radix(v.trim().trim_start_matches(':').trim(), 16).ok())
+                .map_or(false, |m| m & (1 << (libc::SIGPIPE - 1)) != 0)
+        };
+        let sigpipe_off = bit("SigBlk") || bit("SigIgn");
+        let out_ino = pipe_ino_of(pid, 1);
+        let mut out_has_reader = out_ino == 0 || mine.iter().any(|(i, a)| *i == out_ino && *a == 0);
+        if out_ino != 0 && !out_has_reader {
+            'scan: for other in my_children() {
+                if let Ok(rd) = fs::read_dir(format!("/proc/{}/fd", other)) {
+                    for e in rd.flatten() {
+                        let fd: i64 = e.file_name().to_str().and_then(|s| s.parse().ok()).unwrap_or(-1);
+                        if pipe_ino_of(other, fd) == out_ino {
+                            let info = fs::read_to_string(format!("/proc/{}/fdinfo/{}", other, fd)).unwrap_or_default();
+                            if info.lines().any(|l| l.strip_prefix("flags:").map_or(false, |x| i64::from_str_radix(x.trim(), 8).unwrap_or(1) & 3 == 0)) {
+                                out_has_reader = true;
+                                break 'scan;
+                            }
+                        }
+                    }
+                }
+            }
+        }
+        holders.push(json!([pid, inos, what, ino, parent_holds_peer, others_hold_peer, peer_pids, sigpipe_off, out_ino != 0 && !out_has_reader]));
     }
     // the library blocked in read(fd) of a pipe, or in poll() on some pipes: for each of them, which children hold
     // the OTHER end (any descriptor, also 0-2), and does the library's own process hold it too
